@@ -67,9 +67,28 @@ theorem C36_stale_connect_parks (k : Kind) (s : Nat) (q : Proc) (c : Conn) (h1 :
   obtain ⟨ha, hp⟩ := h1 c hc
   have hne : q.pool.pid ≠ some q.pid := by rw [hp]; intro h; exact hstale (Option.some.inj h)
   refine ⟨{ serial := s, creator := q.pid }, ?_⟩
-  simp only [localStep, hheld, poolConnect, hc, ha, hp]
+  simp only [localStep, sessConnect, hheld, poolConnect, hc, ha, hp]
   simp [hstale]
   intro h; rw [← h] at hstale; exact hstale rfl
+
+/-- a connect whose `_connect()` raises (before or after the connection object exists) leaves the record without a pooled
+    connection and the session without a checked-out one — never with the inherited connection re-labelled as the child's —
+    and the retry is a fresh connect: it returns a NEW connection created by this process. -/
+theorem C36_retry_after_failed_connect_is_fresh (k : Kind) (s s' : Nat) (q : Proc) (a : Act)
+    (ha : a = .connectFail ∨ a = .connectInitFail) (hheld : q.held = none) (hf : (localStep k s q a).2.failed = true) :
+    (localStep k s q a).1.pool.con = none ∧ (localStep k s q a).1.held = none
+      ∧ (localStep k s' (localStep k s q a).1 .connect).2.returned = some { serial := s', creator := q.pid }
+      ∧ (localStep k s' (localStep k s q a).1 .connect).2.isNew = true := by
+  rcases ha with rfl | rfl <;>
+  · simp only [localStep, sessConnect, hheld] at hf ⊢
+    obtain ⟨h1, h2⟩ := poolConnectFail_failed _ _ _ _ _ hf
+    simp [h1, h2, poolConnect]
+
+example : (localStep .sqliteFile 5 { pid := 1, pool := { con := some ⟨0, 0⟩, pid := some 0, pidAttr := true, forked := [] }, held := none, fresh := false } .connectFail).2.failed = true := by decide
+
+/-- the same on whole histories: a child whose first connection attempt fails and which then retries (witness of the seeded change c36-1) -/
+example : (run (init .sqliteFile) [.act 0 .connect, .act 0 .release, .fork 0, .act 1 .connectFail, .act 1 .connect, .act 1 .stmt]).stmts
+    = [(0, ⟨0, 0⟩), (1, ⟨4, 1⟩)] := by decide
 
 /-! ### 4. statements and close() calls only ever reach connections of the acting process — under caller discipline -/
 
